@@ -83,48 +83,8 @@ impl Vm {
                 return Err(ParserState::new(state.position().line_of()));
             }
         }
-        match rule {
-            "ANY" => return state.skip(1),
-            "EOI" => return state.rule("EOI", |state| state.end_of_input()),
-            "SOI" => return state.start_of_input(),
-            "PEEK" => return state.stack_peek(),
-            "PEEK_ALL" => return state.stack_match_peek(),
-            "POP" => return state.stack_pop(),
-            "POP_ALL" => return state.stack_match_pop(),
-            "DROP" => return state.stack_drop(),
-            "ASCII_DIGIT" => return state.match_range('0'..'9'),
-            "ASCII_NONZERO_DIGIT" => return state.match_range('1'..'9'),
-            "ASCII_BIN_DIGIT" => return state.match_range('0'..'1'),
-            "ASCII_OCT_DIGIT" => return state.match_range('0'..'7'),
-            "ASCII_HEX_DIGIT" => {
-                return state
-                    .match_range('0'..'9')
-                    .or_else(|state| state.match_range('a'..'f'))
-                    .or_else(|state| state.match_range('A'..'F'));
-            }
-            "ASCII_ALPHA_LOWER" => return state.match_range('a'..'z'),
-            "ASCII_ALPHA_UPPER" => return state.match_range('A'..'Z'),
-            "ASCII_ALPHA" => {
-                return state
-                    .match_range('a'..'z')
-                    .or_else(|state| state.match_range('A'..'Z'));
-            }
-            "ASCII_ALPHANUMERIC" => {
-                return state
-                    .match_range('a'..'z')
-                    .or_else(|state| state.match_range('A'..'Z'))
-                    .or_else(|state| state.match_range('0'..'9'));
-            }
-            "ASCII" => return state.match_range('\x00'..'\x7f'),
-            "NEWLINE" => {
-                return state
-                    .match_string("\n")
-                    .or_else(|state| state.match_string("\r\n"))
-                    .or_else(|state| state.match_string("\r"));
-            }
-            _ => (),
-        };
-
+        // A rule defined by the grammar takes precedence over a built-in of the same name, as in
+        // generated parsers (the validator only reserves the pest keywords).
         if let Some(rule) = self.rules.get(rule) {
             if rule.name == "WHITESPACE" || rule.name == "COMMENT" {
                 match rule.ty {
@@ -170,6 +130,48 @@ impl Vm {
                 }
             }
         } else {
+            match rule {
+                "ANY" => return state.skip(1),
+                "EOI" => return state.rule("EOI", |state| state.end_of_input()),
+                "SOI" => return state.start_of_input(),
+                "PEEK" => return state.stack_peek(),
+                "PEEK_ALL" => return state.stack_match_peek(),
+                "POP" => return state.stack_pop(),
+                "POP_ALL" => return state.stack_match_pop(),
+                "DROP" => return state.stack_drop(),
+                "ASCII_DIGIT" => return state.match_range('0'..'9'),
+                "ASCII_NONZERO_DIGIT" => return state.match_range('1'..'9'),
+                "ASCII_BIN_DIGIT" => return state.match_range('0'..'1'),
+                "ASCII_OCT_DIGIT" => return state.match_range('0'..'7'),
+                "ASCII_HEX_DIGIT" => {
+                    return state
+                        .match_range('0'..'9')
+                        .or_else(|state| state.match_range('a'..'f'))
+                        .or_else(|state| state.match_range('A'..'F'));
+                }
+                "ASCII_ALPHA_LOWER" => return state.match_range('a'..'z'),
+                "ASCII_ALPHA_UPPER" => return state.match_range('A'..'Z'),
+                "ASCII_ALPHA" => {
+                    return state
+                        .match_range('a'..'z')
+                        .or_else(|state| state.match_range('A'..'Z'));
+                }
+                "ASCII_ALPHANUMERIC" => {
+                    return state
+                        .match_range('a'..'z')
+                        .or_else(|state| state.match_range('A'..'Z'))
+                        .or_else(|state| state.match_range('0'..'9'));
+                }
+                "ASCII" => return state.match_range('\x00'..'\x7f'),
+                "NEWLINE" => {
+                    return state
+                        .match_string("\n")
+                        .or_else(|state| state.match_string("\r\n"))
+                        .or_else(|state| state.match_string("\r"));
+                }
+                _ => (),
+            };
+
             if let Some(property) = unicode::by_name(rule) {
                 // std::boxed::Box<dyn std::ops::Fn(char) -> bool> is not FnOnce(char)->bool
                 return state.match_char_by(property);
